@@ -8,6 +8,7 @@ CONSTANTS
   Split = FALSE
   PeekStop = TRUE
   WireGaps = FALSE
+  CutStop = TRUE
 SPECIFICATION GSpec
 INVARIANT GoalLateAfterClose
 CHECK_DEADLOCK FALSE
